@@ -122,6 +122,24 @@ def relabel(tape, dag):
     return DAGCode(phases, dag.initial_phase)
 
 
+def _check_unknowns(label, B, FB):
+    """an implicit solve's unknown occurs in its equations after fusion iff it did before"""
+    from dagrt.utils import get_variables
+    for b_, fb in zip(B, FB):
+        if type(b_).__name__ != "AssignImplicit":
+            continue
+        def occ(st):
+            vs = set()
+            for e in st.expressions:
+                vs |= set(get_variables(e))
+            return [sv in vs for sv in st.solve_variables]
+        if occ(b_) != occ(fb):
+            raise Violation("deps-not-preserved", "%s: implicit solve %s solved for %r in %s; after fusion it solves "
+                            "for %r in %s" % (label, b_.id, list(b_.solve_variables), [str(e) for e in b_.expressions],
+                                              list(fb.solve_variables), [str(e) for e in fb.expressions]),
+                            site="unknowns")
+
+
 def check_structure(label, A, B, F, pred):
     """Structural invariants of one fused phase (also used for fusions of fusions)."""
     ids = [s.id for s in F]
@@ -146,6 +164,7 @@ def check_structure(label, A, B, F, pred):
             raise Violation("deps-not-preserved", "%s: second method's %s (deps %r) became %s with deps %r, expected %r"
                             % (label, b_.id, sorted(b_.depends_on), fb.id, sorted(fb.depends_on), sorted(want)),
                             site="B")
+    _check_unknowns(label, B, FB)
     nA, nB0, nFB = names_of(A), names_of(B), names_of(FB)
     for c in sorted(nA & nB0):
         renamed = c not in nFB
@@ -427,6 +446,7 @@ def _run_c16(ctx):
                 raise Violation("deps-not-preserved", "phase %s: second method's %s (deps %r) became %s with "
                                 "deps %r, expected %r" % (name, b_.id, sorted(b_.depends_on), fb.id,
                                                           sorted(fb.depends_on), sorted(want)), site="B")
+        _check_unknowns("phase %s" % name, B, FB)
         nA, nB0, nFB = names_of(A), names_of(B), names_of(FB)
         # names taken from the scripts themselves (independent of dagrt's read/write sets), plus
         # the guard flags that only exist in the built statements
